@@ -7,7 +7,7 @@ from harness.common import fhex
 from harness import modelgen as G, replay as R
 from harness.props import c05, c06
 PID = "C11"; COQ_TARGET = "C11"
-RULE = ("replay: bounded random networks x constant V in (0.2,5), growing (cell cycle 1-8) and dividing time-threshold volumes, grid steps 0.25-2; ensemble: closed networks x V in {0.5,2,3.3}; "
+RULE = ("replay: bounded random networks x constant V in (0.2,5), growing (cell cycle 1-8) and dividing time-threshold volumes, state-dependent volumes dividing on the volume itself (also in the delay + volume simulator), grid steps 0.25-2; ensemble: closed networks x V in {0.5,2,3.3}; "
         "non-trivial = volume differs from 1 or grows")
 TRUSTED = ["hand model coq/Model/SSA.v (volume loop, volume models) tied by stream replay", "chi-square only as violation search / soak"]
 ASSUMPTIONS = ["count of volume steps before row k and the distributional clause are not mechanised (C11_partial)", "division times closer than 1e-9 to a step time are skipped by the oracle"]
@@ -25,6 +25,15 @@ def gen_cases(seed, tier):
             c["volume"] = {"type": "tt", "cycle": cyc, "avg": avg, "noise": rng.choice([0.0, 0.05, 0.2]), "V0": v0}
         if rng.random() < 0.3: c["spec"]["reactions"] = []      # nothing can ever fire
         cases.append(c)
+    # volume models that divide on the volume itself (StateDependentVolume), in the volume-aware AND in the delay + volume simulator:
+    # the result ends at the first requested time at which the stepped volume exceeds the division volume, and no reported volume
+    # lies above it (seeded change S5_C11: the delay + volume simulator tested the volume of the step before)
+    for _ in range(n // 4):
+        kind = rng.choice(["vssa", "dvssa"]); c = c06.gen_case(rng, kind=kind); c["times"] = [t - c["times"][0] for t in c["times"]]
+        sp0 = sorted(c["spec"]["x0"])[0]; v0 = rng.choice([0.5, 1.0, 1.5])
+        c["volume"] = {"type": "sd", "V0": v0, "avg": v0 * rng.choice([1.2, 1.5, 2.0, 3.0, 50.0]),
+                       "growth": rng.choice(["0.3", "0.7", "0.15", "0.1 + 0.25*%s/(1+%s)" % (sp0, sp0)])}
+        cases.append(c)
     return cases
 
 impl_case = R.impl_replay
@@ -41,6 +50,27 @@ def oracle(case, r):
     if vs["type"] == "base":
         if any(v != vs["V0"] for v in vols): return "constant volume: trace %r for V=%r" % (vols, vs["V0"])
         if r["divided"] or nrows != len(T): return "constant volume: reported division / truncated result"
+        return None
+    if vs["type"] == "sd":
+        # growth rate >= 0.1 by construction: the volume never shrinks; it divides when a step takes it above the division volume
+        for k in range(1, len(vols)):
+            if vols[k] < vols[k - 1] * (1 - 1e-12): return "monotone: volume decreases at row %d: %r" % (k, vols)
+        over = [k for k, v in enumerate(vols) if v > vs["avg"] * (1 + 1e-12)]
+        if over: return "division: the volume reported at t=%g is %r, above the division volume %r: the result should have ended when the volume model reported division" % (T[over[0]], vols[over[0]], vs["avg"])
+        if not r["divided"] and nrows != len(T): return "division: %d of %d rows without a division" % (nrows, len(T))
+        if case["volume"]["growth"] in ("0.3", "0.7", "0.15"):
+            gr = float(case["volume"]["growth"])
+            for k, v in enumerate(vols):
+                lo, hi = vs["V0"] * math.exp(gr * (T[k] - dt)) * (1 - 1e-9), vs["V0"] * math.exp(gr * (T[k] + dt)) * (1 + 1e-9)
+                if not (lo <= v <= hi): return "growth law: volume %r at t=%g is more than one step away from V0*exp(g t) = %r" % (v, T[k], vs["V0"] * math.exp(gr * T[k]))
+            # the step that first exceeds the division volume ends the result: rows are those recorded up to that step
+            steps = [j * dt for j in range(1, int(T[-1] / dt) + 3)]
+            cross = [t for t in steps if vs["V0"] * math.exp(gr * t) > vs["avg"] * (1 + 1e-9)]
+            near = [t for t in steps if abs(vs["V0"] * math.exp(gr * t) - vs["avg"]) <= 1e-9 * vs["avg"]]
+            if cross and not near and cross[0] < T[-1] - 1e-12:
+                want = sum(1 for t in T if t <= cross[0])
+                if not r["divided"]: return "division: the volume exceeds the division volume at the step ending %g but the result is not flagged as divided" % cross[0]
+                if nrows != want: return "division: divided at the step ending %g: %d rows reported, expected %d" % (cross[0], nrows, want)
         return None
     g = 0.69314718056 / vs["cycle"]
     for k in range(1, len(vols)):
